@@ -17,6 +17,7 @@ import (
 	"github.com/feichai0017/NoKV/manifest"
 	"github.com/feichai0017/NoKV/pb"
 	"github.com/feichai0017/NoKV/utils"
+	"github.com/feichai0017/NoKV/verifhook"
 )
 
 type compactDef struct {
@@ -461,6 +462,7 @@ func (lm *levelManager) runCompactDef(id, l int, cd compactDef) (err error) {
 		}
 	}()
 	changeSet := buildChangeSet(&cd, newTables)
+	verifhook.Yield(lm, "compact.tables.built")
 
 	// Update the manifest.
 	var manifestEdits []manifest.Edit
@@ -505,6 +507,7 @@ func (lm *levelManager) runCompactDef(id, l int, cd compactDef) (err error) {
 		return err
 	}
 	cleanupNeeded = false
+	verifhook.Yield(lm, "compact.manifest.logged")
 
 	if cd.plan.IngestMode == compact.IngestKeep {
 		if err := thisLevel.replaceIngestTables(cd.top, newTables); err != nil {
@@ -517,6 +520,7 @@ func (lm *levelManager) runCompactDef(id, l int, cd compactDef) (err error) {
 		if err := nextLevel.replaceTables(cd.bot, newTables); err != nil {
 			return err
 		}
+		verifhook.Yield(lm, "compact.install.between")
 		switch cd.plan.IngestMode {
 		case compact.IngestDrain:
 			if err := thisLevel.deleteIngestTables(cd.top); err != nil {
@@ -530,6 +534,7 @@ func (lm *levelManager) runCompactDef(id, l int, cd compactDef) (err error) {
 		}
 	}
 
+	verifhook.Yield(lm, "compact.installed")
 	from := append(tablesToString(cd.top), tablesToString(cd.bot)...)
 	to := tablesToString(newTables)
 	if dur := time.Since(timeStart); dur > 2*time.Second {
@@ -819,6 +824,7 @@ func (lm *levelManager) moveToIngest(cd *compactDef) error {
 	if err := lm.manifestMgr.LogEdits(edits...); err != nil {
 		return err
 	}
+	verifhook.Yield(lm, "compact.move.logged")
 
 	toDel := make(map[uint64]struct{}, len(cd.top))
 	for _, tbl := range cd.top {
